@@ -119,33 +119,52 @@ def run(ctx):
 
     # ------------------------------------------------------------------ direction B: free-running stress under -race
     traces = []
+    deferred = []          # machinery problems of one part; reported only if no part found a violation
     cfgs = stress_configs(ctx)
     for i, c in enumerate(cfgs):
         c.update(id="st:g%d-e%d-r%d-p%d-%s" % (c["g"], c["e"], c["r"], c["procs"], c["tz"]), seed=ctx.seed, menu=ctx.path("menu.json"))
         json.dump(c, open(ctx.path("stress%d.json" % i), "w"))
 
     def one(i):
-        D.run_harness(ctx, racebin, ["stress", ctx.path("stress%d.json" % i), ctx.path("trace%d.json" % i)],
-                      timeout=900, env={"TZ": cfgs[i]["tz"]})
-        return json.load(open(ctx.path("trace%d.json" % i)))
+        try:
+            D.run_harness(ctx, racebin, ["stress", ctx.path("stress%d.json" % i), ctx.path("trace%d.json" % i)],
+                          timeout=900, env={"TZ": cfgs[i]["tz"]})
+            return json.load(open(ctx.path("trace%d.json" % i)))
+        except D.Inconclusive as e:
+            deferred.append("stress run %s: %s" % (cfgs[i]["id"], e))
+            return None
     with ThreadPoolExecutor(max_workers=3) as ex:
-        traces = list(ex.map(one, range(len(cfgs))))
+        traces = [t for t in ex.map(one, range(len(cfgs))) if t is not None]
     D.write_ndjson(ctx.path("traces.ndjson"), traces)
 
     # ------------------------------------------------------------------ role 3: judge and trace validation
     verdicts = D.judge(ctx, "C04_Judge", "C04_judge.cfg", ctx.path("obs.ndjson"))
     D.check_complete(verdicts, obs)
-    tverdicts = trace_judge(ctx, ctx.path("traces.ndjson"), traces)
+    tverdicts = trace_judge(ctx, ctx.path("traces.ndjson"), traces) if traces else []
     allv = verdicts + tverdicts
 
     # machinery problems are never violations
-    mal = [v for v in allv if v.get("sig", "").startswith("malformed|") or "|malformed|" in v.get("sig", "")
-           or "outside-library" in v.get("sig", "")]
+    is_mal = lambda v: (v.get("sig", "").startswith("malformed|") or "|malformed|" in v.get("sig", "")
+                        or "outside-library" in v.get("sig", ""))
+    mal = [v for v in allv if is_mal(v)]
     if mal:
-        raise D.Inconclusive("malformed record(s) or a race outside the library: %s" % [(v["id"], v["sig"]) for v in mal[:5]])
-    dead_driver(ctx, obs, traces, verdicts)
-    if not quick:
-        corrupt_probe(ctx, obs, traces)
+        deferred.append("malformed record(s) or a race outside the library: %s" % [(v["id"], v["sig"]) for v in mal[:5]])
+        allv = [v for v in allv if not is_mal(v)]
+    violations_present = any(not v.get("ok") for v in allv)
+    unfollowed = [v["id"] for v in verdicts if v.get("followed") is False]
+    ctx.extra["schedules_not_imposed"] = len(unfollowed)
+    if not violations_present:
+        # the guards below say "the check did not really run"; a violation found by any part outranks them
+        if deferred:
+            raise D.Inconclusive("; ".join(deferred))
+        if len(unfollowed) > max(3, len(sched) // 10):
+            raise D.Inconclusive("%d of %d schedules could not be imposed on the implementation (e.g. %s)" % (len(unfollowed), len(sched), unfollowed[:3]))
+        dead_driver(ctx, obs, traces, verdicts)
+        if not quick:
+            corrupt_probe(ctx, obs, traces)
+    else:
+        for d in deferred:
+            D.log("  note (not the verdict): " + d[:300])
 
     by_id = {o["id"]: o for o in obs}
     for t in traces:
@@ -160,12 +179,6 @@ def run(ctx):
         elif o["kind"] == "time":
             o["src"] = o["compile"]["text"]
             o["out"] = [{"tz": z["tz"], "out": z["out"]} for z in o["tzs"]]
-
-    violations_present = any(not v.get("ok") for v in allv)
-    unfollowed = [v["id"] for v in verdicts if v.get("followed") is False]
-    ctx.extra["schedules_not_imposed"] = len(unfollowed)
-    if not violations_present and len(unfollowed) > max(3, len(sched) // 10):
-        raise D.Inconclusive("%d of %d schedules could not be imposed on the implementation (e.g. %s)" % (len(unfollowed), len(sched), unfollowed[:3]))
 
     keys = []
     for o in obs:
@@ -192,7 +205,8 @@ def run(ctx):
         if ks:
             o = ks[len(ks) // 2]
             samples.append({"id": o["id"], "src": o["src"], "out": o["out"]})
-    samples.append({"id": traces[0]["id"], "events": traces[0]["events"][:2] + traces[0]["events"][-2:]})
+    if traces:
+        samples.append({"id": traces[0]["id"], "events": traces[0]["events"][:2] + traces[0]["events"][-2:]})
     return D.finish(
         ctx, allv, by_id, evaluations=evaluations,
         rule="histories: every Compile-call history of length 1 (quick) / <= 2 (thorough) over option lists of length <= 2 of "
